@@ -320,6 +320,7 @@ pub fn run(op: &str, inp: &Value) -> R<Value> {
         "u2f_register_new" => u2f_register_new(inp),
         "dispatch" => crate::mock::dispatch(inp),
         "exchange" => crate::mock::exchange(inp),
+        "session" => crate::mock::session(inp),
         #[cfg(feature = "arbitrary")]
         "arbitrary" => crate::arb::arbitrary(inp),
         _ => Err(format!("unknown op {}", op)),
